@@ -140,14 +140,20 @@ structure PS (P : Type) where
   nbatch : Nat := 0
   fails : List String := []
   shut : Bool := false
+  /-- accepted but not yet processed (still in the shard's `newItem` channel): burst cases -/
+  queue : List (Key × P) := []
+  burst : Bool := false
 
 def sortStrings (l : List String) : List String := l.mergeSort (fun a b => a ≤ b)
 
 def showEmits {P : Type} (sg : Sig P) (nkeys : Nat) (es : List (Emit P)) : List String :=
-  sortStrings (es.map (fun e => s!"obs emit t={e.t} k={showKey nkeys e.key} | {sg.shw e.p}"))
+  -- the export context is built from the group's values of the configured keys only: nothing else of any caller's client.Info
+  sortStrings (es.map (fun e => s!"obs emit t={e.t} k={showKey nkeys e.key} ctx=clean | {sg.shw e.p}"))
 
 /-- clauses that can be judged after every label, on the implementation's emits -/
 def pendingCheck {P : Type} (s : PS P) : List String :=
+  -- items that are only enqueued (burst cases) have not been looked at by the shard yet: judged after shutdown
+  if s.burst && !s.shut then [] else
   let keys := (s.accepted.map (·.key)).eraseDups
   keys.filterMap (fun k =>
     let pend := (s.accepted.filter (·.key = k)).length - (s.emitted.filter (·.key = k)).length
@@ -178,6 +184,16 @@ def procHandler {P : Type} (sg : Sig P) : Handler (PS P) where
         | some (pr, es) => ({ s with pr := pr, lastOpArrive := some (ks, sg.items p), pendingKey := some ks }, showEmits sg s.cfg.nkeys es ++ ["obs ok"])
         | Option.none => ({ s with lastOpArrive := some (ks, sg.items p), pendingKey := some ks }, ["obs err toomany"])
       | _, _, _ => (s, ["obs bad-op"])
+    | "enqueue" :: k :: "|" :: rest =>
+      -- `Consume` returned (the shard exists / the limit was checked) but the shard goroutine has not taken the item yet:
+      -- in the LTS this is `arrive key ∅` now and `arrive key p` when the channel is drained
+      match (kv [k] "k").bind parseKey, sg.parse rest, kv [k] "k" with
+      | some key, some p, some ks =>
+        match s.pr.arrive sg.ops s.cfg key sg.ops.empty with
+        | some (pr, _) => ({ s with pr := pr, queue := s.queue ++ [(key, p)], burst := true,
+                                    lastOpArrive := some (ks, sg.items p), pendingKey := some ks }, ["obs ok"])
+        | Option.none => ({ s with burst := true, lastOpArrive := some (ks, sg.items p), pendingKey := some ks }, ["obs err toomany"])
+      | _, _, _ => (s, ["obs bad-op"])
     | ["advance", us] =>
       match kvNat [us] "us" with
       | some dt =>
@@ -185,12 +201,19 @@ def procHandler {P : Type} (sg : Sig P) : Handler (PS P) where
         ({ s with pr := r.1 }, showEmits sg s.cfg.nkeys r.2 ++ ["obs done"])
       | Option.none => (s, ["obs bad-op"])
     | ["shutdown"] =>
-      let r := s.pr.shutdown sg.ops s.cfg
-      ({ s with pr := r.1, shut := true }, showEmits sg s.cfg.nkeys r.2 ++ ["obs done"])
+      -- the DONE: loop drains what is queued (processItem each, in channel order), then one final send per shard
+      let (pr, drained) := s.queue.foldl (fun (acc : Proc P × List (Emit P)) x =>
+        match acc.1.arrive sg.ops s.cfg x.1 x.2 with
+        | some (pr', es) => (pr', acc.2 ++ es)
+        | Option.none => acc) (s.pr, [])
+      let r := pr.shutdown sg.ops s.cfg
+      ({ s with pr := r.1, shut := true, queue := [] }, showEmits sg s.cfg.nkeys (drained ++ r.2) ++ ["obs done"])
     | _ => (s, ["obs bad-op"])
   onObs := fun s toks =>
     match toks with
-    | _ :: "emit" :: t :: k :: "|" :: rest =>
+    | _ :: "emit" :: t :: k :: cx :: "|" :: rest =>
+      let s := if cx = "ctx=clean" then s else
+        { s with fails := s.fails ++ [s!"prop isolation=FAIL sig=C17/proc/export-context-carries-foreign-client-info {cx}"] }
       match kvNat [t] "t", kv [k] "k", sg.parse rest with
       | some t, some k, some p =>
         let its := sg.items p
